@@ -109,6 +109,31 @@ def rpsd_diffuse_clause(cl, rng, n, replay):
             return
 
 
+def long_records_clause(cl, rng, n, replay):
+    """recordings of different lengths in every order (the longest first, in the middle, last), lengths on both sides of the library's minimum FFT length: the FFT
+    length is never below the longest recording and the density is the average of the single-recording densities"""
+    import itertools
+    import hvsrpy
+    orders = list(itertools.permutations([20000, 40000, 25000]))
+    for j in range(n):
+        lens = orders[j % len(orders)]
+        dt, width = 0.01, 0.1
+        raws = [rp.gen_window(rng, N=L_, dt=dt, scale=1.0) for L_ in lens]
+        s = _psd_settings(width, None)
+        out = hvsrpy.process([rp.mk_record(*r) for r in raws], s)
+        nn = s.fft_settings["n"]
+        cl.case(("lengths", lens))
+        if nn < max(lens):
+            cl.fail("hvsrpy.processing.prepare_fft_settings", f"FFT length {nn} below the longest recording ({max(lens)} samples; lengths in order {lens})", signature="rpsd:n-long", lengths=lens)
+            return
+        for ci, name in enumerate(("ns", "ew", "vt")):
+            want = rp.psd_single([r[ci] for r in raws], dt, nn, width)
+            if not close(out[name].amplitude, want, 1e-8, 0):
+                cl.fail("hvsrpy.processing.rpsd", f"component {name}: density of recordings of lengths {lens} is not the average of the single-recording densities",
+                        signature="rpsd:unequal-long", lengths=lens)
+                return
+
+
 class _Flat:
     """flat instrument response: no poles, no zeros"""
 
@@ -128,8 +153,11 @@ def preprocess_clause(cl, rng, n, replay):
         L = [None, 2.0][(j // 8) % 2]
         width = 0.1
         itf = InstrumentTransferFunction(poles=[], zeros=[], instrument_sensitivity=sens, normalization_factor=norm) if resp else None
+        # FFT length of the response removal / derivative: the library's choice, or the user's - odd lengths included (an inverse transform has to be told its length)
+        fft = [None, dict(n=40001), dict(n=36000), dict(n=32769), None][(j // 3) % 5]
         s = hvsrpy.PsdPreProcessingSettings(orient_to_degrees_from_north=None, filter_corner_frequencies_in_hz=list(corners), window_length_in_seconds=L,
-                                            detrend="constant", window_type_and_width=["tukey", width], instrument_transfer_function=itf, differentiate=diff)
+                                            detrend="constant", window_type_and_width=["tukey", width], instrument_transfer_function=itf, differentiate=diff,
+                                            fft_settings=fft)
         rec = rp.mk_record(*comp, dt)
         try:
             out = hvsrpy.preprocess([rec], s)
@@ -157,7 +185,7 @@ def preprocess_clause(cl, rng, n, replay):
             k = int(round(L * fs))
             chunks = [tuple(c[i * k: min(i * k + k + 1, N)] for c in want) for i in range(N // k)]
         chunks = [tuple(detrend(c, type="constant") for c in ch) for ch in chunks]
-        cl.case((fs, N, diff, resp, corners, L))
+        cl.case((fs, N, diff, resp, corners, L, nfft))
         if len(out) != len(chunks):
             cl.fail("hvsrpy.preprocessing.psd_preprocess", "number of windows", signature="psdpre:count")
             return
@@ -170,6 +198,8 @@ def preprocess_clause(cl, rng, n, replay):
 
 
 CLAUSES = [
+    ("bounded:recordings of 20000 / 40000 / 25000 samples in all six orders: FFT length >= the longest, density = average of the single-recording densities", "bounded",
+     "three recordings, six orders", "hvsrpy.processing.prepare_fft_settings", (6, 12), long_records_clause),
     ("bounded:PSD == Welch-normalised periodogram; Parseval; k**2 scaling; average of single-window densities", "bounded",
      "1-4 windows of 64-300 samples (in a third of the multi-window cases the final window is one sample short, as split() produces), 4 time steps, 4 taper widths, 3 even FFT lengths, amplitude scales 1e-4..1e3", "hvsrpy.processing._rpds_single_component", (80, 2000), psd_clause),
     ("bounded:rpsd components / frequency axis (smoothing on/off); diffuse field == sqrt(S(Pns+Pew)/S(Pvt)) of the retained windows", "bounded",
